@@ -96,7 +96,12 @@ class Number(Operand):
     )
 
     def compile(self):
-        return eval(self.name.capitalize())
+        name = self.name.capitalize()
+        if name in ('True', 'False'):
+            return name == 'True'
+        if '.' in name or 'e' in name:
+            return float(name)
+        return int(name)
 
 
 _re_ref = r'(?P<ref>[[:alpha:]_\\]+[[:alnum:]\.\_\\]*)'
